@@ -544,6 +544,11 @@ def norm(e):
                     return _ok(inner)
                 if b[2] == "Err":
                     return ("err", inner)
+        # projection out of a value that is visibly being built: (a, b).1 == b ; S { x: e, .. }.x == e
+        if b[0] == "agg":
+            for f_, a_ in b[3]:
+                if str(f_) == str(e[2]):
+                    return a_
         return ("field", b, e[2])
     if k == "variant":
         return ("variant", norm(e[1]), e[2])
